@@ -4,7 +4,7 @@
     extracted inductives. No directive of our own. *)
 From Coq Require Import ExtrOcamlBasic.
 From DV Require Import Model.Base Model.NameCheck Model.Parser Model.Header Model.Readers
-  Model.Uncompress Model.Mutate Model.Gen Model.Text Model.Compress Model.Renamer Model.Walk.
+  Model.Uncompress Model.Mutate Model.Gen Model.Text Model.Compress Model.Renamer Model.Walk Model.ErrSlot.
 
 Extraction Language OCaml.
 Extraction "model.ml"
@@ -12,4 +12,4 @@ Extraction "model.ml"
   pp_tid pp_flags pp_rcode pp_opcode pp_is_response pp_dnssec
   pp_set_tid pp_set_flags pp_set_response pp_set_rcode pp_set_opcode pp_empty
   uncompress_with_previous_offset compress rr_from_string raw_name_from_str
-  renamer_rename replace_raw gen_query exec_op parse.
+  renamer_rename replace_raw gen_query exec_op parse run_sched slots_init.
